@@ -98,7 +98,7 @@ def mutate(patch, tier):
     os.makedirs('/verif/.cache', exist_ok=True)
     tmp = tempfile.mkdtemp(prefix='mutc40.', dir='/verif/.cache')
     try:
-        files = [l[len('+++ b/'):].strip() for l in open(patch) if l.startswith('+++ b/')]
+        files = [l[len('+++ b/'):].split('\t')[0].strip() for l in open(patch) if l.startswith('+++ b/')]
         for f in files:
             os.makedirs(os.path.join(tmp, 'tree', os.path.dirname(f)), exist_ok=True)
             if os.path.exists(os.path.join(REPO, f)):
